@@ -321,20 +321,15 @@ static carquet_status_t flush_row_group(carquet_writer_t* writer) {
         return CARQUET_OK;
     }
 
-    /* A row group is a table: the columns that were written must have
-     * received the same number of rows. Completing it otherwise
-     * records num_rows from one column while another chunk holds a different
-     * number of values. (Columns that received nothing at all are let
-     * through: callers that only exercise the schema write such files.) */
-    {
-        int64_t rows = -1;
-        for (int32_t i = 0; i < writer->num_columns; i++) {
-            if (writer->column_values_written[i] == 0) continue;
-            if (rows < 0) {
-                rows = writer->column_values_written[i];
-            } else if (writer->column_values_written[i] != rows) {
-                return CARQUET_ERROR_INVALID_STATE;
-            }
+    /* A row group is a table: every column that was written must have
+     * received as many rows as column 0, whose count becomes num_rows.
+     * Completing it otherwise records a row count next to a chunk that holds a
+     * different number of values. (Columns that received nothing at all are
+     * let through: callers that only exercise the schema write such files.) */
+    for (int32_t i = 1; i < writer->num_columns; i++) {
+        if (writer->column_values_written[i] != 0 &&
+            writer->column_values_written[i] != writer->column_values_written[0]) {
+            return CARQUET_ERROR_INVALID_STATE;
         }
     }
 
